@@ -270,9 +270,10 @@ func HarnessC14WorkflowCall() {
 	inherit := verifChoose("inherit", 2) == 1
 	supply := verifChoose("supply", 2) == 1
 	tyk := verifChoose("type", 4)
-	vk := verifChoose("value", 5)
+	vk := verifChoose("value", 8)
 	var ty ExprType = []ExprType{StringType{}, NumberType{}, BoolType{}, AnyType{}}[tyk]
-	val := []string{"abc", "12", "true", "null", "${{ 1 == 1 }}"}[vk]
+	// 5, 6: one placeholder with text around it is a string whatever the placeholder's type; 7: a number
+	val := []string{"abc", "12", "true", "null", "${{ 1 == 1 }}", "${{ 10 }}px", "on=${{ true }}", "${{ 10 }}"}[vk]
 	proj := &Project{root: "/r"}
 	cache := NewLocalReusableWorkflowCache(proj, "/r", nil)
 	cache.cache["./.github/workflows/callee.yml"] = &ReusableWorkflowMetadata{
@@ -318,9 +319,9 @@ func HarnessC14WorkflowCall() {
 		assignable := true
 		switch tyk {
 		case 0: // string accepts string and number literals
-			assignable = vk == 0 || vk == 1
+			assignable = vk == 0 || vk == 1 || vk >= 5
 		case 1:
-			assignable = vk == 1
+			assignable = vk == 1 || vk == 7
 		case 2:
 			assignable = true // anything converts to bool
 		}
